@@ -24,7 +24,7 @@ OBLIGATIONS += [o for o in apply_obls("f") if "shape0" in o.name or "shape1" in 
 
 META = {
     "level": "model_checking",
-    "level_text": "Bounded model checking (CBMC) of the real db_impl.c write, flush and garbage-collection paths with every env/log call below them returning a symbolic error: a failed log append or sync is returned to the writer, inserts nothing and latches the background error so that every later write is refused (the defect F1 was found and repaired here); a failed table build / MANIFEST apply latches the error and leaves the immutable memtable and its log in place; nothing is deleted after a latched error.",
+    "level_text": "Bounded model checking (CBMC) of the real db_impl.c write, flush and garbage-collection paths with every env/log call below them returning a symbolic error: a failed log append or sync is returned to the writer, inserts nothing and latches the background error so that every later write is refused (the defect F1 was found and repaired here); a failed table build / MANIFEST apply latches the error and leaves the immutable memtable and its log in place; nothing is deleted after a latched error; ldb_build_table, ldb_do_compaction_work and ldb_versions_apply return the first error of any step below them and install nothing (findings F1, F3, F5 were found and repaired through these obligations); the env layer's write/read loops handle short transfers and EINTR and return errno unchanged.",
     "level_note": "Trusted: CBMC semantics of the goto-cc translation; stubs of log writer, env, version set and memtable listed in the evidence; the environment model of other threads (interference only while the mutex is released). Fault sites are the calls of the units encoded here (one API step from an arbitrary state), not whole histories; process-level symptoms (crash/hang) beyond CBMC's memory-safety checks and mmap faults are outside.",
     "bounds": ["one ldb_write / one memtable flush / one GC pass from an arbitrary state; each env or log call may fail with IOERR/ENOSPC",
                "<=3 concurrent writers modelled as interference, <=2 waits, <=1 memtable switch"],
